@@ -1,35 +1,65 @@
 #!/venv/bin/python
 """Run a seeded change against the checks without touching /repo: copy /repo (package + tests) to a scratch dir,
 apply <seeded dir>/patch.diff, run the demonstration on both trees and the property's check against the patched copy.
-usage: tools/try_seed.py <dir with patch.diff [DEMO.py]> <CNN> [tier]"""
+usage: tools/try_seed.py <dir with patch.diff [DEMO.py NOTES.md]> <CNN> [tier] [--keep <seeded id>]
+With --keep the patch, demonstration, notes and a meta.json recording what was run are stored under /verif/seeded/<id>/."""
 import os
 import shutil
 import subprocess
 import sys
 import tempfile
 
-d, prop = sys.argv[1], sys.argv[2]
-tier = sys.argv[3] if len(sys.argv) > 3 else 'quick'
+import json
+argv = list(sys.argv)
+keep = None
+if '--keep' in argv:
+    i = argv.index('--keep')
+    keep = argv[i + 1]
+    del argv[i:i + 2]
+d, prop = argv[1], argv[2]
+tier = argv[3] if len(argv) > 3 else 'quick'
+rec = {'property': prop, 'tier_run': tier}
 here = os.path.dirname(os.path.dirname(os.path.abspath(__file__)))
 scratch = tempfile.mkdtemp(prefix='vseed-', dir='/var/tmp')
 try:
     shutil.copytree('/repo/circuits', os.path.join(scratch, 'circuits'), ignore=shutil.ignore_patterns('__pycache__'))
-    demo = os.path.join(d, 'DEMO.py')
+    demo = os.path.join(scratch, 'DEMO.py')
+    if os.path.exists(os.path.join(d, 'DEMO.py')):
+        shutil.copy(os.path.join(d, 'DEMO.py'), demo)
     if os.path.exists(demo):
         r0 = subprocess.run(['/venv/bin/python', '-B', demo], env=dict(os.environ, PYTHONPATH=scratch), capture_output=True, text=True, cwd=scratch, timeout=600)
         print('demo on unchanged tree: exit', r0.returncode)
+        rec['demo_exit_unchanged_tree'] = r0.returncode
     r = subprocess.run(['patch', '-p1', '-s', '-i', os.path.abspath(os.path.join(d, 'patch.diff'))], cwd=scratch, capture_output=True, text=True)
     if r.returncode:
         print('PATCH FAILED', r.stdout, r.stderr)
         sys.exit(3)
     if os.path.exists(demo):
         r1 = subprocess.run(['/venv/bin/python', '-B', demo], env=dict(os.environ, PYTHONPATH=scratch), capture_output=True, text=True, cwd=scratch, timeout=600)
-        print('demo on changed tree:   exit', r1.returncode, (r1.stdout + r1.stderr).strip().splitlines()[-1:] )
+        print('demo on changed tree:   exit', r1.returncode, (r1.stdout + r1.stderr).strip().splitlines()[-1:])
+        rec['demo_exit_changed_tree'] = r1.returncode
+        rec['demo_last_line_changed_tree'] = ((r1.stdout + r1.stderr).strip().splitlines() or [''])[-1][:300]
     rc = subprocess.run([os.path.join(here, 'check'), prop, '--tier', tier, '--no-evidence'], env=dict(os.environ, VERIF_REPO=scratch),
                         capture_output=True, text=True)
     lines = [l for l in rc.stdout.splitlines() if l.startswith(('VIOLATION', 'HELD', 'INCONCLUSIVE', '  clause'))]
     print('check %s %s on changed tree: exit %d' % (prop, tier, rc.returncode))
     for l in lines[:4]:
         print('   ', l[:300])
+    rec['check_exit_on_changed_tree'] = rc.returncode
+    rec['check_first_lines'] = [l[:300] for l in lines[:3]]
+    if keep:
+        dst = os.path.join(here, 'seeded', keep)
+        os.makedirs(dst, exist_ok=True)
+        for f in ('patch.diff', 'DEMO.py', 'NOTES.md'):
+            if os.path.exists(os.path.join(d, f)):
+                shutil.copy(os.path.join(d, f), os.path.join(dst, f))
+        meta_path = os.path.join(dst, 'meta.json')
+        meta = json.load(open(meta_path)) if os.path.exists(meta_path) else {}
+        meta.update({'id': keep, 'breaks_property': prop, 'written_by': 'fresh sub-agent given only the property text and a scratch worktree',
+                     'needs_to_manifest': meta.get('needs_to_manifest', 'see NOTES.md'),
+                     'what_was_run': 'tools/try_seed.py: DEMO.py on a copy of /repo (must exit 0) and on the copy with patch.diff applied (must exit != 0); ./check %s --tier %s with VERIF_REPO pointing at the patched copy' % (prop, tier)})
+        meta.setdefault('runs', []).append(rec)
+        json.dump(meta, open(meta_path, 'w'), indent=1)
+        print('kept as', dst)
 finally:
     shutil.rmtree(scratch, ignore_errors=True)
